@@ -3,8 +3,12 @@ package tok
 
 import (
 	"fmt"
+	"hash/adler32"
+	"hash/crc32"
+	"hash/fnv"
 	"math/rand"
 	"strings"
+	"sync"
 	"unicode"
 	"unicode/utf8"
 )
@@ -108,6 +112,48 @@ func InvalidUTF8Conc(branches int, chunkIDs []string) *Conc {
 	c := &Conc{Name: "invalid-utf8/" + b.name, Chunks: map[string]string{}, WS: "\u3000", LD: b.ld, LI: b.li, MD: b.md, MI: b.mi, FinalNL: true}
 	for i, id := range chunkIDs {
 		c.Chunks[id] = p[i%len(p)]
+	}
+	return c
+}
+
+// HashTwinConc: sibling names that collide under the usual 32-bit string hashes (FNV-1a, FNV-1, CRC-32, Adler-32): chunk
+// ids 1/2, 3/4, 5/6, 7/8 are such pairs (found by a birthday search over "w<number>" words; FNV-1a also has the
+// dictionary pair declinate / macallums).  Names are equal when their bytes are equal, whatever a hash says.  Only for
+// the specification -> implementation direction (the words are not prefix-free).
+var hashTwinOnce sync.Once
+var hashTwins []string
+
+func HashTwinConc(branches int, chunkIDs []string) *Conc {
+	hashTwinOnce.Do(func() {
+		find := func(h func(string) uint32, skip int) (string, string) {
+			seen := map[uint32]string{}
+			for i := 0; ; i++ {
+				w := fmt.Sprintf("w%d", i)
+				k := h(w)
+				if o, ok := seen[k]; ok {
+					if skip == 0 {
+						return o, w
+					}
+					skip--
+				}
+				seen[k] = w
+			}
+		}
+		fa := func(s string) uint32 { h := fnv.New32a(); h.Write([]byte(s)); return h.Sum32() }
+		f1 := func(s string) uint32 { h := fnv.New32(); h.Write([]byte(s)); return h.Sum32() }
+		cr := func(s string) uint32 { return crc32.ChecksumIEEE([]byte(s)) }
+		ad := func(s string) uint32 { return adler32.Checksum([]byte(s)) }
+		hashTwins = []string{"declinate", "macallums"}
+		for _, h := range []func(string) uint32{f1, cr, ad} {
+			a, b := find(h, 0)
+			hashTwins = append(hashTwins, a, b)
+		}
+		_ = fa
+	})
+	b := branchSets[branches%len(branchSets)]
+	c := &Conc{Name: "hash-twins/" + b.name, Chunks: map[string]string{}, WS: "\u3000", LD: b.ld, LI: b.li, MD: b.md, MI: b.mi, FinalNL: true}
+	for i, id := range chunkIDs {
+		c.Chunks[id] = hashTwins[i%len(hashTwins)]
 	}
 	return c
 }
